@@ -879,6 +879,10 @@ func (q *seqRun) role(x *subscriber, m *msg) string {
 			return "forbidden:delivered-after-unsubscribe"
 		case m.Target.idx < x.idx && m.Target.topic != x.topic:
 			return "forbidden:foreign-topic-delivered:topic-of-an-earlier-subscription-period-of-the-transport"
+		case m.Target.idx < x.idx && m.Sub == "burst":
+			return "forbidden:message-published-before-this-subscription-was-made-delivered"
+		case m.Target == x && m.Sub == "burst":
+			return "optional"
 		case m.Target.idx < x.idx:
 			// every period is settled before its Unsubscribe: this is a second delivery
 			return "forbidden:message-of-an-earlier-subscription-period-delivered-again"
